@@ -23,6 +23,9 @@ func init() {
 	}
 }`, func(ctx px.Context, args []px.Value) px.Value {
 		return newInitType2(args...)
+	}, func(ctx px.Context, args []px.Value) px.Value {
+		h := args[0].(*Hash)
+		return NewInitType(h.Get5(`type`, nil), h.Get5(`init_args`, nil))
 	})
 }
 
